@@ -65,5 +65,8 @@ func (l *CsLRU) EvictEntries() {
 		indexToErase := l.queue.Front().Value.(uint64)
 		l.cs.eraseCsDataFromReplacementStrategy(indexToErase) // TODO: find better name for this method
 		l.queue.Remove(l.queue.Front())
+		// Forget the evicted entry, as BeforeErase does: otherwise one record
+		// per evicted name stays in the map forever
+		delete(l.locations, indexToErase)
 	}
 }
